@@ -36,7 +36,7 @@ def _new_ref(signal_type, value):
     return r
 
 
-POW = z3.Function("pow_spec", z3.IntSort(), z3.IntSort(), z3.IntSort())  # exact integer power, uninterpreted
+POW = z3.Function("pow", z3.IntSort(), z3.IntSort(), z3.IntSort())  # exact integer power, uninterpreted
 
 
 def _const_effect(ex, a):
@@ -109,7 +109,8 @@ TRUSTED = ["IR denotation `irden` (DESIGN §3.1): an IRArith denotes fa(op, den(
 # _is_boolean_producer: `True` only for references whose value is 0 or 1 — under IR consistency
 # (the node a reference points to denotes the reference's value, per `irden`).
 # =================================================================================================
-_IRNODE = ty.TOpt(ty.TObj("IRNode", only=("IRDecider", "IRConst", "IRArith", "IRWireMerge", "IRMemRead")))
+_IRNODE = ty.TOpt(ty.TObj("IRNode", only=("IRDecider", "IRConst", "IRArith", "IRWireMerge", "IRMemRead"),
+                         ftypes=(("debug_metadata", ty.TRecord((("user_declared", ty.Bool),))),)))
 
 
 def _get_operation_effect(ex, a):
@@ -140,7 +141,8 @@ def _ir_consistent(a):
         # its output value is a signal (IRBuilder.decider callers); with a constant output it denotes cmp ? k : 0
         return And(Not(op.copy_count_from_input), Or(d == 0, d == ov))
     if isa(op, "IRConst"):
-        return d == op.value
+        # a declared constant is an input of the blueprint: it denotes whatever value it is given
+        return Or(op.debug_metadata["user_declared"], d == op.value)
     if isa(op, "IRArith"):
         l, r = op.left, op.right
         cs = [Implies(op.op == "*", d == A.wrap32(den(l) * den(r)))]
@@ -249,3 +251,111 @@ for _op in ("+", "-", "!"):
         properties=("C01",), min_obligations=1, note=f"op {_op}"))
 
 CONTRACTS += [lower_expr_c, alloc_type, lower_expr_cap]
+
+# =================================================================================================
+# K3 step for binary operators: ExpressionLowerer.lower_binary_op, scalar operands.
+# Ghost `val(e)` = the run-time value S3 gives the expression e.  Induction over the expression tree:
+# sub-expressions are lowered by contract (den(result) == val(sub-expression)), the node's own result
+# must denote  val(left) <op> val(right)  per S1.
+# =================================================================================================
+from contracts import c11 as _c11  # noqa: E402
+
+
+def val(e):
+    return ghost(e, "val", ty.Int)
+
+
+def _lower_sub_effect(ex, a):
+    v = ex.mk(_REF, fresh_name("lowered"), register=True)
+    ex.assume(den(v) == val(a.expr))
+    ex.assume(A.i32(den(v)))
+    return v
+
+
+lower_sub = Contract(qualname=EL + "lower_expr", params={"self": _OPQ, "expr": _OPQ}, effect=_lower_sub_effect, verify=False,
+                     note="ASSUMED (induction hypothesis over the expression tree): lowers a sub-expression to an int or a SignalRef that denotes val(sub-expression)")
+
+extract_callee = Contract(
+    qualname=_c11.EXTRACT, params={"cls": _OPQ, "expr": _OPQ, "diagnostics": _OPQ, "symbol_resolver": _OPQ},
+    defaults={"diagnostics": None, "symbol_resolver": None}, returns=ty.TOpt(ty.Int),
+    callee_ensures=[("a constant it returns is the expression's value", lambda a, res: True if res is None else And(res == val(a.expr), A.i32(res)))],
+    verify=False, note="proved in contracts.c11 (extract_contract) against the constant denotation; here linked to val(): a compile-time constant is its own run-time value")
+
+_TYPEINFO = ty.TObj("SignalValue", only=("SignalValue",))
+sig_type_name = Contract(qualname="dsl_compiler/src/semantic/type_system.py::get_signal_type_name", params={"value_type": _OPQ}, returns=ty.TOpt(ty.Str),
+                         callee_ensures=[("a name is non-empty", lambda a, res: True if res is None else z3.Length(res) > 0)], verify=False,
+                         note="three-line accessor: the signal type name of a SignalValue, None for every other value type (int-typed operands take the None branch)")
+get_expr_type = Contract(qualname="dsl_compiler/src/semantic/analyzer.py::SemanticAnalyzer.get_expr_type", params={"self": _OPQ, "expr": _OPQ},
+                         returns=_TYPEINFO, verify=False, note="type lookup; only scalar operand types considered (bundle operands: C02)")
+actual_type = Contract(qualname=EL + "_get_actual_type_from_ref", params={"self": _OPQ, "value_ref": _OPQ, "semantic_type": _OPQ},
+                       returns=_TYPEINFO, verify=False, note="type refinement; does not touch values")
+
+
+def _sem(op, l, r):
+    if op in A.CMP_OPS:
+        return lambda res: den(res) == b2i(A.cmp(op, l, r))
+    if op == "&&":
+        return lambda res: den(res) == b2i(And(l != 0, r != 0))
+    if op == "||":
+        return lambda res: den(res) == b2i(Or(l != 0, r != 0))
+    if op in ("<<", ">>"):
+        return lambda res: Implies(And(r >= 0, r <= 31), den(res) == A.fa(op, l, r))
+    if op == "**":
+        return lambda res: Implies(r >= 0, den(res) == A.fa(op, l, r, POW))
+    return lambda res: den(res) == A.fa(op, l, r)
+
+
+def _callee_for(op):
+    """contracts of the per-category lowerers as seen from lower_binary_op (each proved above for this op)"""
+    out = {}
+    ret = ty.TObj("SignalRef", only=("SignalRef",))
+    p5 = {"self": _OPQ, "expr": _OPQ, "left_ref": _OPQ, "right_ref": _OPQ, "output_type": ty.Str, "left_signal_type": _OPQ}
+    if op in A.CMP_OPS:
+        out["ExpressionLowerer._lower_comparison_op"] = Contract(qualname=EL + "_lower_comparison_op", params=p5, requires=_REQ, returns=ret,
+                                                                 callee_ensures=[("cmp", _cmp_post(op))], verify=False, note=f"proved above (op {op})")
+    if op in ("**", "<<", ">>", "AND", "OR", "XOR"):
+        out["ExpressionLowerer._lower_arithmetic_like_op"] = Contract(qualname=EL + "_lower_arithmetic_like_op", params=p5, requires=_REQ, returns=ret,
+                                                                      callee_ensures=[("arith", _arith_like_post(op))], verify=False, note=f"proved above (op {op})")
+    p4 = {"self": _OPQ, "expr": _OPQ, "left_ref": _OPQ, "right_ref": _OPQ, "output_type": ty.Str}
+    if op == "&&":
+        out["ExpressionLowerer._lower_logical_and"] = Contract(qualname=EL + "_lower_logical_and", params=p4, requires=_REQ, returns=ret,
+                                                               callee_ensures=logical_and.ensures[:1], verify=False, note="proved above")
+    if op == "||":
+        out["ExpressionLowerer._lower_logical_or"] = Contract(qualname=EL + "_lower_logical_or", params=p4, requires=_REQ, returns=ret,
+                                                              callee_ensures=logical_or.ensures[:1], verify=False, note="proved above")
+    return out
+
+
+def _chain_callee(op):
+    return Contract(qualname=EL + "_try_fold_logical_chain", params={"self": _OPQ, "expr": _OPQ}, returns=ty.TOpt(ty.TObj("SignalRef", only=("SignalRef",))),
+                    callee_ensures=[("folded chain denotes the logical value", lambda a, res: True if res is None else _sem(op, val(a.expr.left), val(a.expr.right))(res))],
+                    verify=False, note="ASSUMED: multi-condition decider folding (exercised end-to-end by the C01 scope's comparison chains)")
+
+
+merge_callee = Contract(qualname=EL + "_attempt_wire_merge", params={"self": _OPQ, "expr": _OPQ, "left_ref": _OPQ, "right_ref": _OPQ, "result_type": _OPQ},
+                        returns=ty.TOpt(ty.TObj("SignalRef", only=("SignalRef",))),
+                        callee_ensures=[("a merged wire carries the sum", lambda a, res: True if res is None else den(res) == A.wrap32(den(a.left_ref) + den(a.right_ref)))],
+                        verify=False, note="ASSUMED: wire merge of two same-typed sources adds on the wire (S2 network sum; K7 isolation)")
+
+_BIN_OPS = ["+", "-", "*", "/", "%", "**", "<<", ">>", "AND", "OR", "XOR", "==", "!=", "<", "<=", ">", ">=", "&&", "||"]
+for _op in _BIN_OPS:
+    _uses = dict(_SIMPLE_USES)
+    _uses.update({"ExpressionLowerer.lower_expr": lower_sub, "ConstantFolder.extract_constant_int": extract_callee,
+                  "ConstantFolder.fold_binary_operation": _c11._fold_callee, "opaque.get_expr_type": get_expr_type,
+                  "SemanticAnalyzer.get_expr_type": get_expr_type,
+                  "fn:get_signal_type_name": sig_type_name,
+                  "ExpressionLowerer._get_actual_type_from_ref": actual_type, "ExpressionLowerer._try_fold_logical_chain": _chain_callee(_op),
+                  "ExpressionLowerer._attempt_wire_merge": merge_callee})
+    _uses.update(_callee_for(_op))
+    CONTRACTS.append(Contract(
+        qualname=EL + "lower_binary_op",
+        params={"self": ty.TObj("ExpressionLowerer", only=("ExpressionLowerer",)), "expr": ty.TObj("BinaryOp", only=("BinaryOp",))},
+        requires=[("operand values are int32", lambda a: And(A.i32(val(a.expr.left)), A.i32(val(a.expr.right))))],
+        ensures=[(f"result denotes val(left) {_op} val(right)", lambda a, res, _o=_op: _sem(_o, val(a.expr.left), val(a.expr.right))(res))],
+        uses=_uses,
+        dynamic_types={"self": {"ir_builder": ty.TObj("IRBuilder", only=("IRBuilder",)), "parent": ty.TOpaque("parent"),
+                                "semantic": ty.TObj("SemanticAnalyzer", only=("SemanticAnalyzer",)), "diagnostics": ty.TOpaque("diag")},
+                       "expr": {"op": ty.TConcrete(_op), "left": ty.TObj("Expr", only=("IdentifierExpr",)), "right": ty.TObj("Expr", only=("IdentifierExpr",))}},
+        properties=("C01",), min_obligations=2, no_replay=True, note=f"op {_op}; scalar operands"))
+
+CONTRACTS += [lower_sub, extract_callee, get_expr_type, actual_type, merge_callee, sig_type_name]
